@@ -20,7 +20,7 @@ ASSUMPTIONS = [
 
 
 def shards(tier, seed):
-    n = 1 if tier == 'quick' else 16
+    n = 8 if tier == 'quick' else 16
     return [dict(i=i, n=n) for i in range(n)]
 
 
@@ -159,7 +159,7 @@ def check_case(sink, seed, idx):  # noqa: C901
 
 
 def run_shard(sink, tier, seed, shard):
-    n = harness.scale(5000, 400000, tier)
+    n = harness.scale(30000, 400000, tier)
     i0, step = (shard or {}).get('i', 0), (shard or {}).get('n', 1)
     for idx in range(i0, n, step):
         sink.guard('harness', 'case', dict(index=idx), lambda: check_case(sink, seed, idx))
